@@ -59,8 +59,9 @@ class C12(TalCheck):
         else:
             g = Gen(ch, self.gen_opts)
             tmpl = g.template()
+        pretty = ch.coin(0.85)
         return {"tmpl": tmpl, "plan_seed": ch.choose(1 << 30),
-                "pretty": ch.coin(0.85)}
+                "pretty": pretty, "crlf": pretty and ch.coin(0.2)}
 
     def make_plans(self, case, tmpl, template) -> list:
         if "plans" in case:
@@ -157,6 +158,7 @@ class C12(TalCheck):
                 return vs + [self._v("str-fails", k, cname,
                                      f"str(e) raised {type(e2).__name__}: {e2}")]
             recs = parse_records(msg)
+            vs += self.message_under_io_faults(e, recs, k, cname, cover)
             units = self.units(occ, k, m.get("fail_oid")
                                if m["raise"] is not None else None)
             if not recs:
@@ -229,6 +231,50 @@ class C12(TalCheck):
                 if stack:
                     cover.add("stack-depth-%d" % len(stack))
         return vs
+
+    def message_under_io_faults(self, e, recs, k, cname, cover) -> list:
+        """The message is built when str() is taken and re-opens the
+        template files for the source excerpts: whatever happens to those
+        files then (descriptors exhausted, permissions, an I/O error, a
+        directory in the file's place), str() must still answer and name
+        the same expressions at the same places."""
+        import errno
+        from .. import fs
+        files = {r_[1] for r_ in recs if not r_[1].startswith("<")}
+        if not files:
+            return []
+        out = []
+        for name, eno in (("EMFILE", errno.EMFILE), ("EACCES", errno.EACCES),
+                          ("EIO", errno.EIO), ("EISDIR", errno.EISDIR),
+                          ("ENOENT", errno.ENOENT)):
+            hit = []
+
+            def hook(path, mode, eno=eno, hit=hit):
+                if os.fspath(path) in files and "r" in mode:
+                    hit.append(1)
+                    return eno
+                return None
+            fs.open_fault[0] = hook
+            try:
+                try:
+                    msg2 = str(e)
+                except Exception as e2:     # noqa: BLE001
+                    out.append(self._v(
+                        "str-fails-under-io-fault", k, cname,
+                        f"with open() of the template file failing with "
+                        f"{name}, str(e) raised {type(e2).__name__}: {e2}"))
+                    break
+            finally:
+                fs.open_fault[0] = None
+            if hit:
+                cover.add("message-io-fault:" + name)
+            if parse_records(msg2) != recs:
+                out.append(self._v(
+                    "records-change-under-io-fault", k, cname,
+                    f"with open() failing with {name} the message names "
+                    f"{parse_records(msg2)} instead of {recs}"))
+                break
+        return out
 
     @staticmethod
     def units(occ: list, k: int, oid=None) -> list:
